@@ -238,7 +238,7 @@ pub fn run(ctx: &RunCtx) -> i32 {
         println!("VIOLATION property={} replay={}", ctx.id, path);
         return 1;
     }
-    let (stats, failure) = run_parts(ctx, ctx.tier.pick(8000, 150_000), ctx.tier.pick(4000, 80_000));
+    let (stats, failure) = run_parts(ctx, ctx.tier.pick(40_000, 400_000), ctx.tier.pick(20_000, 200_000));
     write_evidence(
         ctx,
         "exploration",
